@@ -30,7 +30,7 @@ def storage_bits(v):
 
 def run(ctx, rep):
     prog = ctx.program("default")
-    rep.configs.append("default")
+    rep.configs.append(getattr(ctx, "alias", "default"))
     be = BitEval(prog)
     colours = []
     for i in prog.impls.values():
